@@ -27,7 +27,7 @@ EXPLANATION = ('C10: a first state-changing request (every command + the periodi
                'free the slot; when the first ends the slot is free and an incr/decr probe pair is accepted. ')
 
 FIRST = ('start_all', 'stop_all', 'restart_all', 'reload_all', 'start', 'stop', 'restart', 'reload', 'reload_seq', 'incr', 'decr',
-         'set', 'set_opt', 'add', 'add_start', 'rm', 'check', 'kill')
+         'set', 'set_opt', 'add', 'add_start', 'rm', 'check', 'kill', 'reload_term', 'reload_all_term')
 SECOND = ('incr', 'decr', 'set', 'stop', 'start', 'restart', 'reload', 'add', 'rm', 'check', 'stop_all', 'quit_probe')
 FATES = ('ok', 'sync_error', 'async_error')
 
@@ -48,6 +48,10 @@ def _send(w, what, p, waiting=True):
         return w.send('reload', name=name, waiting=waiting)
     if what == 'reload_seq':
         return w.send('reload', name=name, waiting=waiting, sequential=True)
+    if what == 'reload_term':
+        return w.send('reload', name=name, waiting=waiting, graceful=False)
+    if what == 'reload_all_term':
+        return w.send('reload', waiting=waiting, graceful=False)
     if what == 'incr':
         return w.send('incr', name=name, nb=1 + (p % 2), waiting=waiting)
     if what == 'decr':
@@ -144,6 +148,11 @@ def c10_slot(first: int, fate: int, second: int, third: int, g: int, p: int) -> 
             for _ in range(g):
                 w.turn()
             holder = w.arbiter._exclusive_running_command
+            transient = [(x.name, x.status()) for x in w.arbiter.watchers if x.status() in ('starting', 'stopping')]
+            if holder is None and transient:
+                # a watcher in a transient status IS an operation in progress (every start / stop path is exclusive here)
+                rt.note('%s: watcher(s) %r are in a transient status but the exclusive slot is free: the next request would be accepted', what, transient)
+                ok = False
             snap = _snapshot(w)
             s2 = SECOND[second]
             if s2 == 'check':
